@@ -382,6 +382,20 @@ func checkR13_2(w *World, r *Report, kt *kindTable) {
 			var tested []string
 			textChecked := false
 			for p := w.parents[as]; p != nil; p = w.parents[p] {
+				// switch form of the kind test: case K1, K2: of a switch over <token>.Type
+				if cc, ok := p.(*ast.CaseClause); ok && len(tested) == 0 {
+					if sw, ok := w.parents[w.parents[cc]].(*ast.SwitchStmt); ok && sw.Tag != nil {
+						var ks []string
+						for _, e := range cc.List {
+							if k := kt.kindOf(w, e); k != nil {
+								ks = append(ks, kt.name[k])
+							}
+						}
+						if len(ks) == len(cc.List) && len(ks) > 0 {
+							tested = ks
+						}
+					}
+				}
 				ifs, ok := p.(*ast.IfStmt)
 				if !ok {
 					continue
